@@ -32,6 +32,10 @@ def load(argv=None):
               'mutators_datatypes', 'mutators_fp'):
         setattr(ns, m, importlib.import_module(f'ddsmt.{m}'))
     ns.options.args(sys.argv[1:])
+    # the real entry point defines logging.trace / logging.chat, which the
+    # library code uses (e.g. collect_information on ill-formed commands)
+    from ddsmt import cli
+    cli.setup_logging()
     ns.Node = ns.nodes.Node
     f = ns.nodes.__file__
     assert os.path.realpath(f).startswith(os.path.realpath(common.REPO)), f
